@@ -1,0 +1,18 @@
+// Copyright 2018 Blues Inc.  All rights reserved.
+// Use of this source code is governed by licenses granted by the
+// copyright holder including that found in the LICENSE file.
+
+//go:build verif
+// +build verif
+
+package jsonata
+
+import "github.com/blues/jsonata-go/jparse"
+
+// VerifRoot returns the root of the syntax tree of a compiled
+// expression. It only exists in builds with the "verif" tag, where
+// verification harnesses use it to check that evaluation leaves the
+// tree unchanged.
+func VerifRoot(e *Expr) jparse.Node {
+	return e.node
+}
